@@ -121,4 +121,78 @@ theorem runP_refines {σ} (S : Sys σ) : ∀ (ops : List OpP) (h : HSt) (s : Sim
       simp only [runP, Spec.runP]
       exact ⟨by rw [he, hes], hrs⟩
 
+/-! ### the axis of histories with protocols -/
+
+def steadyPosP : OpP → Bool
+  | .basic op => steadyPos op
+  | _ => true
+
+theorem simLike_steadyPos (ops : List Op) (h : ops.all simLike = true) : ops.all steadyPos = true := by
+  induction ops with
+  | nil => rfl
+  | cons op rest ih =>
+    simp only [List.all_cons, Bool.and_eq_true] at h ⊢
+    refine ⟨?_, ih h.2⟩
+    cases op <;> simp [simLike] at h <;> rfl
+
+theorem Spec.runStop_axis {σ} (S : Sys σ) : ∀ (ops : List Op) (a : Spec σ), Spec.Axis a →
+    ops.all steadyPos = true → Spec.Axis (Spec.runStop S a ops).1
+  | [], _, ax, _ => ax
+  | op :: rest, a, ax, h => by
+    simp only [List.all_cons, Bool.and_eq_true] at h
+    have h1 := Spec.step_axis S a op ax h.1
+    simp only [Spec.runStop]
+    rcases hs : Spec.step S a op with ⟨a1, _ | e⟩
+    · rw [hs] at h1
+      exact Spec.runStop_axis S rest a1 h1 h.2
+    · rw [hs] at h1
+      exact h1
+
+theorem Spec.stepP_axis {σ} (S : Sys σ) (a : Spec σ) (op : OpP) (ax : Spec.Axis a)
+    (hop : steadyPosP op = true) : Spec.Axis (Spec.stepP S a op).1 := by
+  cases op with
+  | basic op => exact Spec.step_axis S a op ax hop
+  | protocol steps n =>
+    simp only [Spec.stepP, Spec.protocol]
+    split
+    · exact ax
+    · exact Spec.runStop_axis S _ a ax (simLike_steadyPos _ (expandProtocol_simLike a.now n steps))
+  | protocolTC steps pts rel =>
+    simp only [Spec.stepP, Spec.protocolTC]
+    split
+    · exact ax
+    · cases (if rel then pts.map (· + a.now) else pts).getLast? with
+      | none => exact ax
+      | some last =>
+        simp only
+        split
+        · exact ax
+        · split
+          · exact ax
+          · exact Spec.runStop_axis S _ a ax (simLike_steadyPos _ (expandProtocolTC_simLike _ a.now steps))
+
+theorem Spec.runP_axis {σ} (S : Sys σ) : ∀ (ops : List OpP) (a : Spec σ), Spec.Axis a →
+    ops.all steadyPosP = true → Spec.Axis (Spec.runP S a ops).1
+  | [], _, ax, _ => ax
+  | op :: rest, a, ax, h => by
+    simp only [List.all_cons, Bool.and_eq_true] at h
+    exact Spec.runP_axis S rest _ (Spec.stepP_axis S a op ax h.1) h.2
+
+theorem okHistP_steadyPos : ∀ (ops : List OpP) (h : HSt), okHistP h ops = true → ops.all steadyPosP = true
+  | [], _, _ => rfl
+  | op :: rest, h, hok => by
+    simp only [okHistP] at hok
+    cases hn : nextP h op with
+    | none => simp [hn] at hok
+    | some h' =>
+      simp only [hn] at hok
+      simp only [List.all_cons, Bool.and_eq_true]
+      refine ⟨?_, okHistP_steadyPos rest h' hok⟩
+      cases op with
+      | basic o =>
+        have := okHist_steadyPos [o] h (by simp only [okHist]; simp only [nextP] at hn; rw [hn])
+        simpa [steadyPosP] using this
+      | protocol _ _ => rfl
+      | protocolTC _ _ _ => rfl
+
 end Mxl.C14
